@@ -42,7 +42,7 @@ func init() {
 		MinEvals:    floor(20000, 600000),
 		MinDistinct: floor(2000, 60000),
 		RequiredCells: func(string) []string {
-			cells := []string{"cid/ToSealed", "cid/ToSealedWriter", "cid/FromSealed", "cid/FromSealedReader", "cid/container", "cid/ToSealedWriter-piecewise", "cid/container-foreign-section-cid", "sig/s-flip", "sig/der-padded", "sig/zero-prepended", "sig/zero-appended", "sig/leading-zeros-stripped", "sig/leading-zero-signature/rsa2048", "variant/extra-element"}
+			cells := []string{"cid/ToSealed", "cid/ToSealedWriter", "cid/FromSealed", "cid/FromSealedReader", "cid/container", "cid/ToSealedWriter-piecewise", "cid/container-foreign-section-cid", "cid/mixed-container", "sig/s-flip", "sig/der-padded", "sig/zero-prepended", "sig/zero-appended", "sig/leading-zeros-stripped", "sig/leading-zero-signature/rsa2048", "variant/extra-element"}
 			for _, k := range []string{"widen-1", "widen-2", "widen-4", "widen-8", "indefinite", "indefinite-split", "map-reverse", "map-rotate", "float-narrow", "null-undefined", "all-knobs"} {
 				cells = append(cells, "variant/"+k)
 			}
@@ -279,6 +279,7 @@ func c08LeadingZeroSignatures(w *mon.W) {
 func runC08(w *mon.W) {
 	r := w.Rng
 	c08LeadingZeroSignatures(w)
+	c08MixedContainers(w)
 	total := w.Share(w.Pick(40, 600))
 	for it := 0; it < total; it++ {
 		typ := []string{"dlg", "inv"}[it%2]
@@ -528,6 +529,124 @@ func c08OfferVariant(w *mon.W, s *gen.TokenSpec, typ, kind, class string, sealed
 			w.Violate(fmt.Sprintf("canon/accepted/%s/container.%s", kind, containerNames[f]),
 				fmt.Sprintf("the %s container reader accepts a %s re-encoding (%s) of a sealed token", containerNames[f], class, kind),
 				map[string]any{"spec": describeSpec(s), "kind": kind, "sealed_hex": mon.Hex(sealed), "variant_hex": mon.Hex(variant)})
+		}
+	}
+}
+
+// c08MixedContainers: containers holding delegations AND invocations, in all four formats; the
+// CID under which every accessor hands a token out (GetAllDelegations, GetAllInvocations,
+// GetToken, GetDelegation, GetInvocation) is the content address of that token's sealed bytes -
+// tokens are recognised by their nonce.
+func c08MixedContainers(w *mon.W) {
+	r := w.Rng
+	for it := 0; it < w.Share(w.Pick(24, 200)); it++ {
+		nd, ni := 1+r.IntN(5), 1+r.IntN(4)
+		if it%5 == 0 {
+			ni = 1
+		}
+		type item struct {
+			sealed []byte
+			c      cid.Cid
+			nonce  string
+			typ    string
+		}
+		var items []item
+		wr := container.NewWriter()
+		for k := 0; k < nd+ni; k++ {
+			typ := "dlg"
+			if k >= nd {
+				typ = "inv"
+			}
+			s := gen.RandomSpec(r, typ, gen.SpecOpts{Issuer: gen.Ed(it + k), Minimal: true, NoBig: true})
+			tk, err := s.Build()
+			if err != nil {
+				continue
+			}
+			sealed, _, err := tk.ToSealed(s.Iss.Priv)
+			if err != nil {
+				continue
+			}
+			var nonce []byte
+			switch x := tk.(type) {
+			case *delegation.Token:
+				nonce = x.Nonce()
+			case *invocation.Token:
+				nonce = x.Nonce()
+			}
+			c := ref.CID(sealed)
+			items = append(items, item{sealed, c, string(nonce), typ})
+			wr.AddSealed(c, sealed)
+		}
+		byNonce := map[string]item{}
+		for _, x := range items {
+			byNonce[x.nonce] = x
+		}
+		for f := 0; f < 4; f++ {
+			var rd container.Reader
+			var err error
+			switch f {
+			case 0:
+				var b []byte
+				if b, err = wr.ToCbor(); err == nil {
+					rd, err = container.FromCbor(b)
+				}
+			case 1:
+				var b []byte
+				if b, err = wr.ToCar(); err == nil {
+					rd, err = container.FromCar(b)
+				}
+			case 2:
+				var b []byte
+				if b, err = wr.ToCborBase64(); err == nil {
+					rd, err = container.FromCborBase64(b)
+				}
+			default:
+				var b []byte
+				if b, err = wr.ToCarBase64(); err == nil {
+					rd, err = container.FromCarBase64(b)
+				}
+			}
+			if err != nil {
+				w.Count("container-roundtrip-fails(judged by C17)", 1)
+				continue
+			}
+			w.Cover("cid/mixed-container")
+			w.Distinct("mixed", it, f)
+			bad := func(how string, got cid.Cid, nonce []byte) {
+				want, ok := byNonce[string(nonce)]
+				w.Eval(1)
+				if !ok {
+					w.Count("container-foreign-token(judged by C17)", 1)
+					return
+				}
+				if !got.Equals(want.c) {
+					w.Violate("cid/container-accessor/"+how, fmt.Sprintf("%s of a %s container holding %d delegations and %d invocations hands a token out under CID %s; its sealed bytes hash to %s", how, containerNames[f], nd, ni, got, want.c),
+						map[string]any{"accessor": how, "format": containerNames[f], "delegations": nd, "invocations": ni, "reported_cid": got.String(), "cid_of_sealed_bytes": want.c.String(), "sealed_hex": mon.Hex(capBytes(want.sealed, 2048))})
+				}
+			}
+			for c, d := range rd.GetAllDelegations() {
+				bad("GetAllDelegations", c, d.Nonce())
+			}
+			for c, i := range rd.GetAllInvocations() {
+				bad("GetAllInvocations", c, i.Nonce())
+			}
+			for _, x := range items {
+				if t, err := rd.GetToken(x.c); err == nil {
+					switch y := t.(type) {
+					case *delegation.Token:
+						bad("GetToken", x.c, y.Nonce())
+					case *invocation.Token:
+						bad("GetToken", x.c, y.Nonce())
+					}
+				} else {
+					w.Count("container-token-missing(judged by C17)", 1)
+				}
+				if x.typ == "dlg" {
+					if d, err := rd.GetDelegation(x.c); err == nil {
+						bad("GetDelegation", x.c, d.Nonce())
+					}
+				}
+			}
 		}
 	}
 }
